@@ -69,9 +69,10 @@ def r1_once_per_node(ctx, res):
     res.inst(key, f.module.loc(loop), f'idiom {info.idiom}: {info.why}')
     if info.idiom != 'G':
         res.find(key, f.module.loc(loop),
-                 f'the ancestor walk of compute() uses idiom {info.idiom} ({info.why}): with a per-path visited set a hypernym '
-                 f'reached over several paths receives the weight once per path (diamond: probability of the top > 1), '
-                 f'contradicting "added to each ancestor once"')
+                 f'the ancestor walk of compute() uses idiom {info.idiom} ({info.why}): the weight must be added under a test of the '
+                 f'popped synset against one visited set per word synset; with a per-path set, or with a filter applied only when '
+                 f'hypernyms are queued, a hypernym reached over several paths can be popped - and counted - more than once '
+                 f'(diamond / redundant edge: probability of an inner node > its hypernym), contradicting "added to each ancestor once"')
         return
     v = info.visited
     # the accumulation itself is on the guarded path
